@@ -71,6 +71,45 @@ bool enabled(Th& t)
 	default: return true;
 	}
 }
+#ifdef VERIF_POOL
+// ---- recycled OS threads (variant without a sanitizer only).  One execution creates and joins every harness thread, and
+// creating a thread costs ~1 ms here and is serialised system-wide, which alone limits a search to ~1000 schedules/s over all
+// shards.  With the pool a "new thread" is an idle worker OS thread that runs the trampoline (hence the real thread body) and
+// goes back to sleep when it returns; join waits for that return.  What the scheduler and the code under test see is unchanged:
+// a thread with its own stack and pthread_self, started and finished once per execution.  A forked child starts with an empty
+// pool (the workers are not there).  The sanitizer variants create a real thread per logical thread (their bookkeeping wants it).
+namespace pool {
+struct W { pthread_t pt; int go, fin; void *(*fn)(void *); void *arg; void *ret; bool busy; };
+W w[MAXT]; int nw = 0; bool hooked = false;
+int (*libc_create)(pthread_t *, const pthread_attr_t *, void *(*)(void *), void *);
+void *loop(void *p) { W *x = (W *)p; for (;;) { fwait(&x->go); x->ret = x->fn(x->arg); fwake(&x->fin); } return 0; }
+void in_child() { nw = 0; }
+void reclaim() { for (int i = 0; i < nw; i++) if (w[i].busy && __atomic_load_n(&w[i].fin, __ATOMIC_ACQUIRE)) { w[i].fin = 0; w[i].busy = false; } }
+int create(pthread_t *t, const pthread_attr_t *, void *(*fn)(void *), void *arg)
+{
+	if (!libc_create) libc_create = (decltype(libc_create))dlsym(RTLD_NEXT, "pthread_create");
+	if (!hooked) { hooked = true; pthread_atfork(0, 0, in_child); }
+	W *x = 0; for (int i = 0; i < nw && !x; i++) if (!w[i].busy) x = &w[i];
+	if (!x) {
+		if (nw >= MAXT) return EAGAIN;
+		x = &w[nw]; memset(x, 0, sizeof *x);
+		if (int r = libc_create(&x->pt, 0, loop, x)) return r;
+		++nw;
+	}
+	x->fn = fn; x->arg = arg; x->busy = true; *t = x->pt; fwake(&x->go);
+	return 0;
+}
+int join(pthread_t t, void **r)
+{
+	for (int i = 0; i < nw; i++) if (pthread_equal(w[i].pt, t)) {
+		if (!w[i].busy) return ESRCH;	// joined before (fix8 joins a finished thread again in ~_f8_threadcore)
+		fwait(&w[i].fin); w[i].busy = false; if (r) *r = w[i].ret; return 0;
+	}
+	return ESRCH;
+}
+}
+#endif
+
 void die(const char *m) { char b[64]; snprintf(b, sizeof b, "E %s\n", m); tr(b); if (trace_fd == -2) { ssize_t r = syscall(SYS_write, 2, b, strlen(b)); (void)r; } _exit(3); }
 
 // called by the running thread at a point after publishing its want; picks the next thread and hands over
@@ -118,6 +157,9 @@ extern "C" {
 void vs_begin(const int *pre, int n, int tfd)
 {
 	prefix.assign(pre, pre + n); trace_fd = tfd; step = 0; nth = 1; owner.clear(); progress = 0; vnow = VNOW0; tlen = 0;
+#ifdef VERIF_POOL
+	pool::reclaim();
+#endif
 	suspended = false; memset(th, 0, sizeof th); memset(seen_progress, 0, sizeof seen_progress); th[0].id = 0; th[0].pt = pthread_self(); my_id = 0; active = true;
 }
 void vs_end() { active = false; tr("E OK\n"); }
@@ -144,7 +186,11 @@ void vs_suspend(int s) { suspended = s != 0; }
 
 int pthread_create(pthread_t *t, const pthread_attr_t *a, void *(*fn)(void *), void *arg)
 {
+#ifdef VERIF_POOL
+	if (!real_create) real_create = __interceptor_pthread_create ? __interceptor_pthread_create : pool::create;
+#else
 	if (!real_create) real_create = __interceptor_pthread_create ? __interceptor_pthread_create : (decltype(real_create))dlsym(RTLD_NEXT, "pthread_create");
+#endif
 	if (!on()) { *t = (pthread_t)0xdead0000; return 0; }	// created outside the scheduler (global logger): never runs
 	if (nth >= MAXT) die("TOOMANYTHREADS");
 	Th& n = th[nth]; memset(&n, 0, sizeof n); n.id = nth; n.want = W_START; n.fn = fn; n.arg = arg; ++nth;
@@ -154,7 +200,11 @@ int pthread_create(pthread_t *t, const pthread_attr_t *a, void *(*fn)(void *), v
 }
 int pthread_join(pthread_t t, void **r)
 {
+#ifdef VERIF_POOL
+	if (!real_join) real_join = __interceptor_pthread_join ? __interceptor_pthread_join : pool::join;
+#else
 	if (!real_join) real_join = __interceptor_pthread_join ? __interceptor_pthread_join : (decltype(real_join))dlsym(RTLD_NEXT, "pthread_join");
+#endif
 	if (t == (pthread_t)0xdead0000) return 0;
 	if (!on()) return real_join(t, r);
 	int id = -1; for (int i = 0; i < nth; i++) if (pthread_equal(th[i].pt, t)) id = i;
